@@ -75,8 +75,12 @@ func (x *Exec) inlinableLoops(callee *ssa.Function, loopsOK bool) bool {
 			case *ssa.MakeClosure:
 				// a method value (x.m) is fine: it binds only its receiver; a function
 				// literal would need its own contract
-				if f, ok := in.Fn.(*ssa.Function); !ok || !strings.HasPrefix(f.Synthetic, "bound method wrapper") {
+				f, ok := in.Fn.(*ssa.Function)
+				if !ok {
 					return false
+				}
+				if !strings.HasPrefix(f.Synthetic, "bound method wrapper") && x.enc.cs.Funcs[shortName(f)] == nil {
+					return false // a literal without a contract of its own
 				}
 			}
 		}
